@@ -316,4 +316,85 @@ theorem le_add_unpacked (spec : Format) (hE : 2 ≤ spec.exponentBits) (ba bx : 
   · exact le_repack spec hE _ _ (unpack_inRange spec hE ba) hc hle
 
 
+/-! ### non-negative sums, and the only NaN sum -/
+
+theorem isNaN_le_false (a r : UnpackedFloat) (h : a.le r = true) : r.isNaN = false := by
+  match r, h with
+  | .zero _, _ => rfl
+  | .infinity _, _ => rfl
+  | .finite _ _ _ _, _ => rfl
+  | .notANumber, h =>
+    exfalso
+    match a, h with
+    | .notANumber, h => cases h
+    | .zero _, h => cases h
+    | .infinity _, h => cases h
+    | .finite _ _ _ _, h => cases h
+
+/-- the sum of two non-negative floats is non-negative (and not a NaN). -/
+theorem add_nonneg (spec : Format) (a x : UnpackedFloat) (ha : Canon spec a) (hx : Canon spec x)
+    (ha0 : (UnpackedFloat.zero .positive).le a = true) (hx0 : (UnpackedFloat.zero .positive).le x = true) :
+    Canon spec (UnpackedFloat.add spec a x) ∧
+      (UnpackedFloat.zero .positive).le (UnpackedFloat.add spec a x) = true := by
+  rcases nonneg_cases a ha0 with ⟨sa, rfl⟩ | ⟨ma, ea, hma, rfl⟩ | rfl <;>
+  rcases nonneg_cases x hx0 with ⟨sx, rfl⟩ | ⟨mx, ex, hmx, rfl⟩ | rfl
+  · cases sa <;> cases sx <;> exact ⟨trivial, rfl⟩
+  · exact ⟨hx, rfl⟩
+  · exact ⟨trivial, rfl⟩
+  · exact ⟨ha, rfl⟩
+  · obtain ⟨mr, er, ⟨hpos, hr⟩, hcan, _⟩ := add_fin_pos_pos spec ma mx ea ex hma hmx ha
+    rw [hr]; exact ⟨hcan, rfl⟩
+  · exact ⟨trivial, rfl⟩
+  · exact ⟨trivial, rfl⟩
+  · exact ⟨trivial, rfl⟩
+  · exact ⟨trivial, rfl⟩
+
+/-- for `a` not a NaN and `+0 ≤ x` the only NaN sum is `-∞ + +∞`. -/
+theorem add_nan_only (spec : Format) (a x : UnpackedFloat) (ha : Canon spec a)
+    (hna : a.isNaN = false) (hx0 : (UnpackedFloat.zero .positive).le x = true)
+    (h : (UnpackedFloat.add spec a x).isNaN = true) : a = .infinity .negative ∧ x = .infinity .positive := by
+  rcases nonneg_cases x hx0 with ⟨sx, rfl⟩ | ⟨mx, ex, hmx, rfl⟩ | rfl
+  · match a, hna, h with
+    | .zero .positive, _, h => cases sx <;> cases h
+    | .zero .negative, _, h => cases sx <;> cases h
+    | .infinity s, _, h => cases h
+    | .finite s m e hm, _, h => cases h
+  · match a, hna, ha, h with
+    | .zero s, _, _, h => cases h
+    | .infinity s, _, _, h => cases h
+    | .finite .positive ma ea hma, _, hc, h =>
+      obtain ⟨mr, er, ⟨hpos, hr⟩, _, _⟩ := add_fin_pos_pos spec ma mx ea ex hma hmx hc
+      rw [hr] at h; cases h
+    | .finite .negative ma ea hma, _, hc, h =>
+      rcases add_fin_neg_pos spec ma mx ea ex hma hmx hc with ⟨s, hr⟩ | ⟨mr, er, ⟨hpos, hr⟩, _⟩ |
+        ⟨mr, er, ⟨hpos, hr⟩, _, _⟩ <;> (rw [hr] at h; cases h)
+  · match a, hna, h with
+    | .zero s, _, h => cases h
+    | .infinity .positive, _, h => cases h
+    | .infinity .negative, _, _ => exact ⟨rfl, rfl⟩
+    | .finite .positive m e hm, _, h => cases h
+    | .finite .negative m e hm, _, h => cases h
+
+/-- packed version of `add_nonneg`. -/
+theorem add_nonneg_unpacked (spec : Format) (hE : 2 ≤ spec.exponentBits) (ba bx : BitVec spec.numBits)
+    (ha0 : (UnpackedFloat.zero .positive).le (UnpackedFloat.unpack spec ba) = true)
+    (hx0 : (UnpackedFloat.zero .positive).le (UnpackedFloat.unpack spec bx) = true) :
+    (UnpackedFloat.zero .positive).le
+      (repack spec (UnpackedFloat.add spec (UnpackedFloat.unpack spec ba) (UnpackedFloat.unpack spec bx))) = true := by
+  obtain ⟨hc, hle⟩ := add_nonneg spec _ _ (unpack_canon spec ba) (unpack_canon spec bx) ha0 hx0
+  exact le_repack spec hE _ _ trivial hc hle
+
+/-- packed version of `add_nan_only`. -/
+theorem add_nan_unpacked (spec : Format) (hE : 2 ≤ spec.exponentBits) (ba bx : BitVec spec.numBits)
+    (hna : (UnpackedFloat.unpack spec ba).isNaN = false)
+    (hx0 : (UnpackedFloat.zero .positive).le (UnpackedFloat.unpack spec bx) = true)
+    (hs : (repack spec (UnpackedFloat.add spec (UnpackedFloat.unpack spec ba) (UnpackedFloat.unpack spec bx))).isNaN
+      = true) :
+    UnpackedFloat.unpack spec ba = .infinity .negative ∧ UnpackedFloat.unpack spec bx = .infinity .positive := by
+  apply add_nan_only spec _ _ (unpack_canon spec ba) hna hx0
+  rcases add_ge spec _ _ (unpack_canon spec ba) (unpack_canon spec bx) hna hx0 with h | ⟨hc, hle⟩
+  · exact h
+  · have := isNaN_le_false _ _ (le_repack spec hE _ _ (unpack_inRange spec hE ba) hc hle)
+    rw [this] at hs; cases hs
+
 end Rosu.FMR
